@@ -65,7 +65,7 @@ def x_prog(ctx, case):
     env, the_case = run.env, run.case
     names = [n for n in log.names() if n in recorders.OUTCOMES]
     raised = list(env.raised)
-    forced = bool(env.tags("expect_mismatch", "force"))
+    forced = bool(env.tags("expect_mismatch", "force")) or bool(program.get("force_attr"))
     implicit_error = False
     if not programs.is_decor_skip(program):
         # a missing upcall is reported by the framework as an error of that stage
@@ -78,6 +78,9 @@ def x_prog(ctx, case):
                       "handlers_inserted": [e[2:] for e in env.tags("handler_inserted")]}
     if len(names) != 1:
         ctx.count("not-exactly-one-outcome (C01's concern)")
+        # ... but a success reported although something raised is C03's concern whatever else follows
+        if "addSuccess" in names and (raised or forced):
+            ctx.check(False, "success-only-if-clean", detail)
         return bool(raised)
     outcome = names[0]
     if programs.is_decor_skip(program):
@@ -190,6 +193,14 @@ def run(ctx):
                     target.insert(0, list(how))
                     ctx.execute("prog", {"prog": p})
     ctx.note_space("expectThat mismatch / force_failure in each stage x one benign or failing raise", n)
+    n = 0
+    for how in ("class", "instance"):
+        for other in [None] + [[s, k] for s in STAGES for k in ("skip", "xfail", "uxs", "error")]:
+            if ctx.mine():
+                n += 1
+                ctx.execute("prog", {"placed": [other] if other else [], "extra": {"force_attr": how}})
+    ctx.note_space("force_failure set outside the stages (class attribute / on the instance before run()) "
+                   "x one benign or failing raise", n)
     # custom exception classes with user-inserted handlers
     n = 0
     for report in ["skip", "failure", "error", "xfail", "uxs"]:
